@@ -18,11 +18,12 @@ import json
 
 from harness import lib_c17 as lib
 from harness import lib_c14_hist as hist
+from harness import lib_c17_copies as copies
 from harness.core import err_kind, jdump
 
 PID = 'C17'
 TITLE = 'Lazy expressions evaluate to what the eager expression would'
-LEAN_MODULES = ['MlModel.Properties.C17', 'MlModel.Properties.C17State']
+LEAN_MODULES = ['MlModel.Properties.C17', 'MlModel.Properties.C17State', 'MlModel.Properties.C17Eq']
 TRUSTED = [
     'modelled, not verified: collections.OrderedDict (association list, oldest first), cloudpickle '
     '(structural copy; library functions and classes travel by reference), CPython hashing of ints/str/tuples '
@@ -415,6 +416,11 @@ def gen_cases(ctx):
       yield {'kind': 'lazy', 'level': 'B', 'fn_max': fn_real, 'obj_max': obj_real, 'ops': ops}
   for i in range(800 if quick else 10000):
     yield gen_lru_case(rng, 'lru' if i % 2 else 'wrap', rng.randrange(0, 5), rng.randrange(1, 25))
+  # cached calls with unhashable / ambiguous-== arguments through distinct copies with the same id
+  # (harness/lib_c17_copies.py; model: Model/LazyEq.lean)
+  yield from copies.fixed_copies_cases()
+  for i in range(400 if quick else 6000):
+    yield copies.gen_copies_case(rng)
   # lazy expressions over MUTABLE objects (harness/lib_c14_hist.py; model: Model/RemoteState.lean)
   for name, ops, flags in hist.fixed_hist_ops():
     for fn_max in (128, 0, 1, 2):
@@ -642,6 +648,8 @@ def oracle_hist(case, obs):
 
 
 def run_impl(case):
+  if case['kind'] == 'copies':
+    return copies.run(case, c17_err)
   if case['kind'] == 'hist':
     return run_hist(case)
   if case['kind'] == 'lazy':
@@ -654,6 +662,8 @@ def run_impl(case):
 # ----------------------------------------------------------------------------- model
 
 def model_requests(case):
+  if case['kind'] == 'copies':
+    return [copies.model_request(case)]
   if case['kind'] == 'hist':
     return [hist.model_request(case)]
   if case['kind'] == 'lazy':
@@ -663,6 +673,8 @@ def model_requests(case):
 
 def model_obs(case, resps):
   r = resps[0]
+  if case['kind'] == 'copies':
+    return {'steps': r['steps'], 'case': case}
   if case['kind'] == 'hist':
     return {'hist': hist.renumber(r['obs'])}
   if case['kind'] == 'lazy':
@@ -687,6 +699,8 @@ def model_obs(case, resps):
 
 
 def compare(impl, model):
+  if 'copies' in impl:
+    return copies.compare(model['case'], impl, model)
   if 'hist' in impl:
     return hist.compare_model([{}] * len(impl['hist']), impl['hist'], model['hist'], 'maybe_make')
   a, b = impl['ops'], model['ops']
@@ -967,6 +981,8 @@ def oracle_wrap(case, obs):
 
 
 def oracle(case, obs):
+  if case['kind'] == 'copies':
+    return copies.oracle(case, obs)
   if case['kind'] == 'hist':
     return oracle_hist(case, obs)
   if case['kind'] == 'lazy':
@@ -997,6 +1013,15 @@ def _stat(key, sub, n=1):
 
 def collect(case, obs):
   _stat('kind', case['kind'] + (':' + case.get('level', '?') if case['kind'] == 'lazy' else ''))
+  if case['kind'] == 'copies':
+    for b in copies.branches(case, obs):
+      _stat('branch', 'copies: ' + b)
+    _stat('copies fn_max', case['fn_max'])
+    for st in case['steps']:
+      _stat('copies step', st[0] + (' ' + st[2] if st[0] == 'make' else ''))
+    if copies.oracle(case, obs):
+      STATS['failed'] = {'1': 1}
+    return
   if case['kind'] == 'hist':
     for b in hist.branches(case['ops'], obs['hist_twin']):
       _stat('branch', 'hist: ' + b)
@@ -1037,19 +1062,25 @@ def collect(case, obs):
 
 def extra(ctx):
   for k, h in STATS.items():
+    if k == 'failed':
+      continue
     for sub, n in h.items():
       ctx.count(k, sub, n)
   need = ['fn cache hit', 'fn cache miss', 'object deref hit', 'object deref miss', 'fn cache eviction',
           'identical object returned again']
   need += ['hist: ' + b for b in hist.NEED_PLAIN + hist.NEED_FLAGS]
+  need += ['copies: ' + b for b in copies.NEED]
   missing = [b for b in need if not STATS.get('branch', {}).get(b)]
-  if missing:
+  if missing and not STATS.get('failed'):
+    # (with an oracle failure in hand the verdict is a violation, not a generator-quality problem)
     from harness.core import InfraError
     raise InfraError(f'C17 generator did not exercise: {missing}')
 
 
 def nontrivial(case, obs):
   collect(case, obs)
+  if case['kind'] == 'copies':
+    return sum(1 for st in case['steps'] if st[0] == 'make') >= 2
   if case['kind'] == 'hist':
     return any(b.startswith('re-read after mutation') or b.startswith('next after') or b.startswith('cached link')
                for b in hist.branches(case['ops'], obs['hist_twin']))
@@ -1067,6 +1098,13 @@ def finding(case, what):
 # ----------------------------------------------------------------------------- search helpers
 
 def neighbours(case, rng):
+  if case['kind'] == 'copies':
+    for i in range(len(case['steps'])):
+      if len(case['steps']) > 1:
+        yield dict(case, steps=case['steps'][:i] + case['steps'][i + 1:])
+    for _ in range(300):
+      yield copies.gen_copies_case(rng)
+    return
   if case['kind'] == 'hist':
     for i in range(len(case['ops'])):
       c = hist.drop_op(case, i)
@@ -1119,6 +1157,8 @@ def _res_refs(x):
 def shrink(case, fails):
   if case['kind'] == 'hist':
     return hist.shrink(case, fails)
+  if case['kind'] == 'copies':
+    return copies.shrink(case, fails)
   cur = case
   changed = True
   while changed:
